@@ -203,7 +203,12 @@ def handle (line : String) : String :=
     | _ :: "mask" :: _ => handleMask (words first) ops
     | _ :: "res" :: _ => handleRes (words first) ops
     | _ :: "cp" :: _ => handleCP (words first) ops
-    | [_, "const"] => s!"wf={natsShow shippedWf} s={shippedSRegs} v={natsShow shippedVRegs} l={shippedLDS}"
+    | [_, "const"] =>
+      -- what the shipped CU reports to the pool, and the register files `cu.MakeBuilder` allocates
+      -- (`byte_offsets_disjoint'` is about exactly these sizes)
+      s!"wf={natsShow shippedWf} s={shippedSRegs} v={natsShow shippedVRegs} l={shippedLDS}" ++
+      s!" sfile={shippedSRegs * 4} vfile={natsShow (shippedVRegs.map (· * 4))}" ++
+      s!" stride={natsShow (shippedVRegs.map fun _ => 1024)} pool={shippedWf.headD 0} simd={shippedWf.length}"
     | _ => "bad-kind"
 
 end C09
